@@ -36,7 +36,7 @@ Kinds == { "none",
   "rec_alg", "fields_drop_mandatory", "fields_drop_env", "fields_add_env", "fields_add_unknown", "fields_empty",
   "value_splice", "value_bitflip", "value_attached", "value_attached_tamper", "key_other_same_alg", "key_other_alg", "keyset_without_signer", "keyset_empty", "plug_source_suffix",
   \* non-semantic
-  "env_nil_vs_empty", "plugins_nil_vs_empty", "matrix_nil_vs_empty", "matrix_empty_adj", "plug_source_spelling", "plug_cfg_empty_vs_null",
+  "env_nil_vs_empty", "plugins_nil_vs_empty", "matrix_nil_vs_empty", "matrix_empty_alloc", "matrix_empty_adj", "plug_source_spelling", "plug_cfg_empty_vs_null",
   "venv_extra_unsigned", "venv_extra_fieldname", "fields_permuted", "fields_duplicate", "keyset_signer_plus_others" }
 SetPlugin(p, i, x) == [p EXCEPT !.l[i] = x]
 \* the presented content / env for a mutation kind; NA when the kind does not apply to this step
@@ -85,6 +85,7 @@ MutContent(o, kind) ==
       [] kind = "env_nil_vs_empty" -> IF DOMAIN o.env.m = {} THEN [o EXCEPT !.env = Env(~o.env.nil, <<>>)] ELSE NA
       [] kind = "plugins_nil_vs_empty" -> IF Len(o.plugins.l) = 0 THEN [o EXCEPT !.plugins = Plug(~o.plugins.nil, <<>>)] ELSE NA
       [] kind = "matrix_nil_vs_empty" -> IF o.matrix = "nil" THEN [o EXCEPT !.matrix = "empty"] ELSE IF o.matrix = "empty" THEN [o EXCEPT !.matrix = "nil"] ELSE NA
+      [] kind = "matrix_empty_alloc" -> IF o.matrix \in {"nil", "empty"} THEN [o EXCEPT !.matrix = "empty_alloc"] ELSE NA       \* allocated-but-empty containers: still no matrix
       [] kind = "matrix_empty_adj" -> IF o.matrix = "setup_os" THEN [o EXCEPT !.matrix = "setup_os_eadj"] ELSE NA               \* an explicitly empty adjustments list
       [] kind = "plug_source_spelling" -> IF Len(o.plugins.l) > 0 /\ o.plugins.l[1].src = "short" THEN [o EXCEPT !.plugins = SetPlugin(o.plugins, 1, [src |-> "canon", cfg |-> o.plugins.l[1].cfg])] ELSE NA
       [] kind = "plug_cfg_empty_vs_null" -> IF Len(o.plugins.l) = 2 /\ o.plugins.l[2].cfg = "null" THEN [o EXCEPT !.plugins = SetPlugin(o.plugins, 2, [src |-> o.plugins.l[2].src, cfg |-> "empty"])] ELSE NA
